@@ -519,7 +519,8 @@ def check_append(case, ctx):
             raise HarnessError("curve construction does not match the case record")
         grp = nanite.IndentationGroup()
         for j in range(case["prefill"]):
-            grp.append(synth.build(synth.base_case(n_app=60, n_ret=60, enum=j)))
+            with ctx.no_raise("append-refused-usable-curve", dict(desc, spring_constant=True, tip_position=False)):
+                grp.append(synth.build(synth.base_case(n_app=60, n_ret=60, enum=j)))
         n0 = len(grp)
         try:
             if case["how"] == "append":
@@ -636,8 +637,21 @@ def check_maps(ctx, qm, curves, feats, desc, stats):
         stats["warnings"] += len(dm)
 
 
+def reset_feature_caches(qmap_cls):
+    """afmformats' qmap_feature decorator keeps cached feature values in process-wide dicts keyed by
+    id(curve); empty them so that a case never sees values left behind by curve objects of an earlier
+    case that lived at the same address (keeps the oracle a pure function of the case record)"""
+    for name in dir(qmap_cls):
+        if name.startswith("feat_"):
+            f = getattr(qmap_cls, name)
+            for attr in ("cache_values", "cache_ids"):
+                if isinstance(getattr(f, attr, None), dict):
+                    getattr(f, attr).clear()
+
+
 def check_qmap(case, ctx):
     import nanite
+    reset_feature_caches(nanite.QMap)
     root = fresh_dir(ctx, case)
     try:
         _check_qmap(case, ctx, root, nanite)
@@ -716,6 +730,8 @@ def _check_qmap(case, ctx, root, nanite):
     classes = set()
     n_fit = 0
     last_vals = {}
+    # freshly loaded: nothing fitted, nothing rated - every present curve is reported missing
+    check_maps(ctx, qm, curves, ["E", "cp", "rating"], dict(desc, stage="fresh"), stats)
     for op in case["ops"]:
         if op["op"] == "map":
             check_maps(ctx, qm, curves, [op["feat"]], desc, stats)
